@@ -266,7 +266,12 @@ func (d *Decoder) readTypedList(tag byte) (interface{}, error) {
 		}
 	}
 
+	// struct fields that referred to the list while it was being read (fields of its own elements)
+	// are bound now: when the list itself ends up as a list element, a map value or the message,
+	// nothing else would ever do it (SetSlice binds them again, to the converted list, when the
+	// list is stored into a field of another slice type)
 	holder.complete = true
+	holder.notify()
 	return holder, nil
 }
 
@@ -336,6 +341,11 @@ func (d *Decoder) readUntypedList(tag byte) (interface{}, error) {
 		}
 	}
 
+	// struct fields that referred to the list while it was being read (fields of its own elements)
+	// are bound now: when the list itself ends up as a list element, a map value or the message,
+	// nothing else would ever do it (SetSlice binds them again, to the converted list, when the
+	// list is stored into a field of another slice type)
 	holder.complete = true
+	holder.notify()
 	return holder, nil
 }
